@@ -9,8 +9,8 @@ import (
 	"reflect"
 	"time"
 
-	"github.com/uhppoted/uhppote-core/encoding/bcd"
 	codec "github.com/uhppoted/uhppote-core/encoding/UTO311-L0x"
+	"github.com/uhppoted/uhppote-core/encoding/bcd"
 	"github.com/uhppoted/uhppote-core/messages"
 	"github.com/uhppoted/uhppote-core/types"
 	"github.com/uhppoted/uhppote-core/uhppote"
@@ -152,7 +152,9 @@ func c04(c *Ctx) {
 		caseNo++
 		in, class := mkInput()
 		mt := mts[r.Pick(len(mts))]
-		w := func() map[string]any { return map[string]any{"input": wk.Hex(in), "len": len(in), "class": class, "type": mt.t.Name()} }
+		w := func() map[string]any {
+			return map[string]any{"input": wk.Hex(in), "len": len(in), "class": class, "type": mt.t.Name()}
+		}
 		c.Res.Eval(1)
 		c.Res.DistinctHash(wk.Hash("in", in, mt.t.Name()))
 		c.Res.Count("decode-inputs:"+class, 1)
